@@ -232,19 +232,22 @@ LLInt = list_theory(LInt.sort, "LInt")
 # ----------------------------------------------------------------------------
 # prefix-recursive specification functions
 # ----------------------------------------------------------------------------
-def prefix_fun(name, arg_sorts, res_sort, base, step, n_index=-1):
+def prefix_fun(name, arg_sorts, res_sort, base, step, n_index=-1, max_chain=None):
     """F(args.., n) with guarded backward unfolding
          F(.., n) = if n <= 0 then base(args) else step(args, n-1, F(.., n-1)).
     Returns the z3 function; the unfolding axiom is registered with trigger F(.., n)."""
     F = z3.Function(name, *arg_sorts, Int, res_sort)
     vs = [z3.Const(f"_{name}_{k}", s) for k, s in enumerate(arg_sorts)]
     n = z3.Int(f"_{name}_n")
-    TH.axiom(
+    ax = TH.axiom(
         vs + [n],
         F(*vs, n),
         F(*vs, n) == z3.If(n <= 0, base(*vs), step(*vs, n - 1, F(*vs, n - 1))),
         f"unfold.{name}",
     )
+    # max_chain: how many times the unfolding may be applied to terms that an unfolding itself
+    # introduced (F(n) -> F(n-1) -> ...); None = every round
+    ax.max_chain = max_chain
     return F
 
 
@@ -609,6 +612,7 @@ def instantiate(axioms, ground, fuel=3, max_instances=None):
     eg.feed(ground)
     done = set()
     out = []
+    chain: dict = {}  # (axiom, term id) -> how many unfoldings of that axiom produced the term
     for _round in range(fuel):
         eg.close(terms.values())
         new = []
@@ -628,6 +632,8 @@ def instantiate(axioms, ground, fuel=3, max_instances=None):
                         if not pat.decl().eq(t.decl()) or pat.num_args() != t.num_args():
                             continue
                         # the candidate itself has the trigger's head: match its arguments modulo E
+                        if getattr(ax, "max_chain", None) is not None and chain.get((id(ax), t.get_id()), 0) >= ax.max_chain:
+                            continue
                         partial = [s]
                         for pc, tc in zip(pat.children(), t.children()):
                             n2 = []
@@ -651,6 +657,15 @@ def instantiate(axioms, ground, fuel=3, max_instances=None):
                     STATS[ax.name] = STATS.get(ax.name, 0) + 1
                 inst = z3.substitute(ax.body, [(v, s[v.get_id()]) for v in ax.vars])
                 inst = arith_normalize(inst)
+                if getattr(ax, "max_chain", None) is not None:
+                    head = ax.triggers[0].decl()
+                    src = z3.substitute(ax.triggers[0], [(v, s[v.get_id()]) for v in ax.vars])
+                    d = chain.get((id(ax), src.get_id()), 0)
+                    acc: dict = {}
+                    _subterms(inst, acc)
+                    for u in acc.values():
+                        if z3.is_app(u) and u.decl().eq(head) and u.get_id() != src.get_id() and u.get_id() not in terms:
+                            chain.setdefault((id(ax), u.get_id()), d + 1)
                 new.append(inst)
                 if getattr(ax, "liberal", False):
                     new_liberal.append(inst)
@@ -795,6 +810,20 @@ def _find_select_store(t, seen=None):
     return None
 
 
+def _last_iteration_split(g):
+    """g = Implies(And(.., sk < T + 1, ..), body) with sk an uninterpreted Int constant: (sk, T)"""
+    if not (z3.is_implies(g) and z3.is_and(g.arg(0))):
+        return None
+    for c in g.arg(0).children():
+        if z3.is_lt(c) and z3.is_const(c.arg(0)) and c.arg(0).decl().kind() == z3.Z3_OP_UNINTERPRETED and z3.is_add(c.arg(1)) and c.arg(1).num_args() == 2:
+            a, b = c.arg(1).arg(0), c.arg(1).arg(1)
+            if z3.is_int_value(b) and b.as_long() == 1:
+                return c.arg(0), a
+            if z3.is_int_value(a) and a.as_long() == 1:
+                return c.arg(0), b
+    return None
+
+
 def check_valid(hyps, goal, extra_axioms=(), timeout_ms=60000, fuel=3, want_model=True, exclude=(), seed_terms=(), _depth=0):
     """hyps: list of z3 Bool / Forall; goal: z3 Bool / Forall.  Decide hyps |- goal after
     ground instantiation.  Returns (status, info).
@@ -802,6 +831,24 @@ def check_valid(hyps, goal, extra_axioms=(), timeout_ms=60000, fuel=3, want_mode
     A goal that reads a just-updated map, Select(Store(a, k, v), i), is proved by cases
     i = k / i != k (each case with the read resolved), so that the matcher sees the plain
     value instead of the select-over-store term."""
+    if _depth == 0 and isinstance(goal, Forall):
+        # a bounded goal "forall p < T + 1. body" (an invariant re-established after iteration T) is
+        # proved as "p < T" and "p = T" (the latter with p replaced by T, so that the matcher sees T)
+        g0, trig0 = skolemize_goal(goal)
+        sp = _last_iteration_split(g0)
+        if sp is not None:
+            sk, T = sp
+            total = {"instances": 0, "seconds": 0.0}
+            cases = [(list(hyps) + [sk < T], g0, list(trig0)), (list(hyps), z3.substitute(g0, [(sk, T)]), [z3.substitute(t, [(sk, T)]) for t in trig0])]
+            for hy, gg, tr in cases:
+                st, info = check_valid(hy, gg, extra_axioms, timeout_ms, fuel, want_model, exclude, list(seed_terms) + tr, 1)
+                total["instances"] += info.get("instances", 0) or 0
+                total["seconds"] += info.get("seconds", 0) or 0
+                if st != "proved":
+                    info["instances"], info["seconds"] = total["instances"], round(total["seconds"], 4)
+                    return st, info
+            total["seconds"] = round(total["seconds"], 4)
+            return "proved", total
     if _depth < 3:
         g0, trig0 = skolemize_goal(goal)
         ss = _find_select_store(g0)
@@ -826,8 +873,9 @@ def check_valid(hyps, goal, extra_axioms=(), timeout_ms=60000, fuel=3, want_mode
     ground_h = [h for h in hyps if not isinstance(h, Forall)]
     local_ax = [h for h in hyps if isinstance(h, Forall)]
     g, trig_terms = skolemize_goal(goal)
-    ground_h, local_ax, gp = solve_equalities(ground_h, local_ax, [g] + trig_terms)
-    g, trig_terms = gp[0], gp[1:]
+    seed_terms = list(seed_terms)
+    ground_h, local_ax, gp = solve_equalities(ground_h, local_ax, [g] + trig_terms + seed_terms)
+    g, trig_terms, seed_terms = gp[0], gp[1 : 1 + len(trig_terms)], gp[1 + len(trig_terms) :]
     neg = z3.Not(g)
     seeds = ground_h + [neg] + TH.ground + [t == t for t in list(trig_terms) + list(seed_terms)]
     axioms = [a for a in TH.axioms if a.name not in exclude]
